@@ -429,9 +429,15 @@ class DiffNative(Contract):
                         for n in (1, 2, 3):
                             yield {"name": "r%d-axis%d-%s-%s-n%d" % (rank, d, scheme, "keepaxis" if keep else "shorten", n),
                                    "rank": rank, "d": d, "scheme": scheme, "keep": keep, "n": n}
+        # INTEGER data ("for all numeric arrays"): the NaN padding of keepaxis needs a float result
+        for rank in (1, 2):
+            for scheme in ("backward", "forward"):
+                for keep in (False, True):
+                    yield {"name": "r%d-axis0-%s-%s-n1-data_I" % (rank, scheme, "keepaxis" if keep else "shorten"), "rank": rank, "d": 0, "scheme": scheme,
+                           "keep": keep, "n": 1, "dk": "I"}
 
     def setup(self, S, case):
-        arr, labels, data = make_dimarray(S, case["rank"], kinds=("f", "f"), attrs={"units": "K"})
+        arr, labels, data = make_dimarray(S, case["rank"], kinds=("f", "f"), attrs={"units": "K"}, data_kind=case.get("dk", "f"))
         for L in labels:
             S.assume(S.n(L) >= 1, "every dimension has at least one label")
         return {"arr": arr, "labels": labels, "data": data, "attrs0": dict(arr.attrs)}
